@@ -59,7 +59,9 @@ func checkC05(c *core.Ctx) {
 				{Deg: theory.Interval{N: n, Q: theory.Minor}, Symbol: "#5"}, {Deg: theory.Interval{N: n, Q: theory.Major}, Symbol: "5"},
 				{Deg: theory.Interval{N: n, Q: theory.Augmented}, Symbol: "b9"}, {Deg: theory.Interval{N: n, Q: theory.Major}, Symbol: "9"},
 			}
-			r.Shuffle(len(quad)/2, func(a, b int) { quad[2*a], quad[2*a+1], quad[2*b], quad[2*b+1] = quad[2*b], quad[2*b+1], quad[2*a], quad[2*a+1] })
+			r.Shuffle(len(quad)/2, func(a, b int) {
+				quad[2*a], quad[2*a+1], quad[2*b], quad[2*b+1] = quad[2*b], quad[2*b+1], quad[2*a], quad[2*a+1]
+			})
 			for k := range quad {
 				q := quad[k]
 				p.Inst = append(p.Inst, model.Instance{Chord: &q, Values: []model.Frac{{Num: 1, Den: 1}}})
